@@ -27,7 +27,11 @@ Inductive embed_mode := DictOnly | AnyMapping.        (* `isinstance(x, dict)`  
 Inductive nest_mode := FlatLists | NestedLists.       (* a list inside a list is not walked  vs  walked         *)
 Inductive inherit_mode := ByPrefix | ByPathTree.      (* `a.startswith(b)`             vs  `a.startswith(b + '.')` *)
 Inductive api_mode := AnyObjectMarking | SameMarking. (* markings.is_marked(..., inherited=True) combination   *)
-Inductive syntax_mode := LowerKeys | AnyCaseKeys.     (* SELECTOR_REGEX: [a-z0-9_-] only  vs  also A-Z in keys after the first *)
+Inductive syntax_mode := LowerKeys | AnyCaseKeys | LowerKeysZ | AnyCaseKeysZ.
+   (* SELECTOR_REGEX: [a-z0-9_-] only  vs  also A-Z in keys after the first;  ...Z: anchored with \Z instead of `$`
+      (`$` also matches before one trailing newline) *)
+Definition syntax_upper (s : syntax_mode) : bool := match s with AnyCaseKeys | AnyCaseKeysZ => true | _ => false end.
+Definition syntax_dollar (s : syntax_mode) : bool := match s with LowerKeys | AnyCaseKeys => true | _ => false end.
 Inductive ind20_mode := Ind20Unchecked | Ind20Checked. (* v20.Indicator._check_object_constraints omits / makes the super() call *)
 
 Record cfg := mkcfg {
@@ -35,7 +39,7 @@ Record cfg := mkcfg {
   c_inherit : inherit_mode; c_api : api_mode; c_syntax : syntax_mode; c_ind20 : ind20_mode }.
 
 Definition cfg_pinned : cfg := mkcfg TruthyOnly FirstEqual DictOnly FlatLists ByPrefix AnyObjectMarking LowerKeys Ind20Unchecked.
-Definition cfg_repaired : cfg := mkcfg AnyValue Position AnyMapping NestedLists ByPathTree SameMarking AnyCaseKeys Ind20Checked.
+Definition cfg_repaired : cfg := mkcfg AnyValue Position AnyMapping NestedLists ByPathTree SameMarking AnyCaseKeysZ Ind20Checked.
 
 (* ------------------------------------------------------------------ *)
 (* Value trees.  VDict is a real `dict`; VObj is a Mapping that is not a dict
@@ -288,7 +292,7 @@ Definition is_digit (x : N) : bool := ((48 <=? x) && (x <=? 57))%N.
 
 Definition key_chars_ok (c : cfg) (first : bool) (s : ustring) : bool :=
   forallb (fun x => is_lower_key_char x ||
-                    (match c_syntax c with AnyCaseKeys => negb first && is_upper x | LowerKeys => false end)) s.
+                    (syntax_upper (c_syntax c) && negb first && is_upper x)) s.
 
 Definition seg_first_ok (c : cfg) (s : ustring) : bool :=
   key_chars_ok c true s && (3 <=? List.length s) && (List.length s <=? 250).
@@ -313,7 +317,7 @@ Definition strip_final_newline (s : ustring) : ustring :=
   end.
 
 Definition selector_syntax_ok (c : cfg) (s : ustring) : bool :=
-  let s' := strip_final_newline s in
+  let s' := if syntax_dollar (c_syntax c) then strip_final_newline s else s in
   ustr_eqb s' (u "id") ||
   match split_dot s' with
   | first :: rest => seg_first_ok c first && forallb (seg_rest_ok c) rest
